@@ -21,12 +21,12 @@ func TestMain(m *testing.M) { ev.Main(m) }
 type c15Prog struct {
 	World   sim.Prog `json:"world"`
 	Replica int      `json:"replica"`
-	Upper   string   `json:"upper"`  // none | lte | lt | lte-unknown | lt-unknown
+	Upper   string   `json:"upper"`   // none | lte | lt | lte-unknown | lt-unknown
 	UpperIx []int    `json:"upperIx"` // indices into the replica's entries (mod)
-	Lower   string   `json:"lower"`  // none | gte | gt
+	Lower   string   `json:"lower"`   // none | gte | gt
 	LowerIx int      `json:"lowerIx"` // index into the expected range (mod)
-	Amount  int      `json:"amount"` // -1: no amount; else candidate selector
-	Merge   bool     `json:"merge"`  // the chosen replica first merges every other replica (forked log)
+	Amount  int      `json:"amount"`  // -1: no amount; else candidate selector
+	Merge   bool     `json:"merge"`   // the chosen replica first merges every other replica (forked log)
 }
 
 func genC15(t *rapid.T) c15Prog {
